@@ -15,6 +15,7 @@ def step (line : String) : String :=
   | "C07" :: ts => stepC07 ts
   | "C22" :: ts => stepC22 ts
   | "C23" :: ts => stepC23 ts
+  | "C24" :: ts => stepC24 ts
   | "C29" :: ts => stepC29 ts
   | "C35" :: ts => stepC35 ts
   | _ => "bad-op"
